@@ -261,6 +261,18 @@ class SBool(Sym):
     def implies(self, o):
         return SBool(z3.Implies(self.t, B(o)))
 
+    # python bools are ints in arithmetic: (a > b) - (a < b)
+    def __sub__(self, o):
+        return SInt(_lift_int(self) - I(o))
+
+    def __rsub__(self, o):
+        return SInt(I(o) - _lift_int(self))
+
+    def __add__(self, o):
+        return SInt(_lift_int(self) + I(o))
+
+    __radd__ = __add__
+
 
 def And(*xs):
     xs = [B(x) for x in xs]
@@ -700,6 +712,72 @@ class Opt(EngineValue):
     __hash__ = None
 
 
+class SArr(Sym):
+    """A sequence given by (length, index -> element array): the light-weight alternative to z3
+    sequences for code that only indexes, stores and deletes (no concatenation/search)."""
+
+    def __init__(self, n, arr, elem, py="list"):
+        self.n, self.arr, self.elem, self.py = n, arr, elem, py
+        self.t = arr
+
+    def length(self):
+        return SInt(self.n)
+
+    def at(self, i):
+        return self.elem.wrap(z3.Select(self.arr, I(i)))
+
+    def set(self, idx_t, v):
+        e = self.elem.lift(v)
+        if e is None:
+            raise OutOfSubset(f"list element {v!r} of a different kind")
+        return SArr(self.n, z3.Store(self.arr, idx_t, e), self.elem, self.py)
+
+    def delete(self, idx_t):
+        j = z3.Int(fresh_name("j"))
+        return SArr(self.n - 1, z3.Lambda([j], z3.If(j < idx_t, self.arr[j], self.arr[j + 1])), self.elem, self.py)
+
+    def append(self, v):
+        e = self.elem.lift(v)
+        if e is None:
+            raise OutOfSubset(f"list element {v!r} of a different kind")
+        return SArr(self.n + 1, z3.Store(self.arr, self.n, e), self.elem, self.py)
+
+    @staticmethod
+    def fresh(name, elem, py="list"):
+        n = z3.Int(fresh_name(name + "_len"))
+        return SArr(n, z3.Const(fresh_name(name), z3.ArraySort(z3.IntSort(), elem.sort)), elem, py)
+
+    def __eq__(self, o):
+        raise OutOfSubset("equality of array-backed sequences")
+
+    __hash__ = None
+
+
+class MutList(EngineValue):
+    """A python list whose content is a symbolic sequence (identity concrete, content an SSeq)."""
+
+    def __init__(self, val):
+        self._val = val
+
+    @property
+    def val(self):
+        return self._val
+
+    @val.setter
+    def val(self, new):
+        from . import theory
+        ex = theory.CURRENT
+        if ex is not None and ex.guards:
+            from .explore import NeedFork
+            raise NeedFork("list mutation inside a merged if")
+        self._val = new
+
+    def __repr__(self):
+        return f"<MutList {self._val.t}>"
+
+    __hash__ = None
+
+
 class Maybe(EngineValue):
     """A dict entry (or attribute) that exists only under a condition (merged `if`)."""
 
@@ -742,6 +820,11 @@ def conc(v, model):
         return _conc_set(v, model)
     if isinstance(v, MutSet):
         return set(conc(v.val, model)) if v.val is not None else set()
+    if isinstance(v, MutList):
+        return list(conc(v.val, model))
+    if isinstance(v, SArr):
+        n = model.eval(v.n, model_completion=True).as_long()
+        return [conc(v.at(i), model) for i in range(max(0, min(n, 12)))]
     if isinstance(v, Opt):
         return None if z3.is_true(model.eval(v.isnone, model_completion=True)) else conc(v.val, model)
     if isinstance(v, Maybe):
